@@ -215,6 +215,12 @@ void for_each_method_set_registry(const SpaceSpec& sp, F&& f) {
                 m.shape = shapes[mi];
                 rx::for_each_vp(n, hx::shape_arity(shapes[mi]), m, [&] {
                     m.nd = 0;
+                    if (dmode >= 2) {
+                        // every multiset of <= d legal definitions for every method
+                        auto legal = rx::legal_defs(po, hx::shape_arity(shapes[mi]), m.vp);
+                        rx::for_each_defset(legal, dmode, m, [&] { rec(mi + 1); });
+                        return;
+                    }
                     if (dmode >= 1) {
                         m.nd = 1;
                         memcpy(m.def[0], m.vp, rx::MAXA);
